@@ -443,6 +443,31 @@ func httpOracle(c *httpCase, body []byte) string {
 		if strings.Join(want, "\x00") != strings.Join(gotIDs, "\x00") {
 			return fmt.Sprintf("ids of id-bearing requests %v are not echoed one-to-one in order: got %v", want, gotIDs)
 		}
+		// one response object per request that is not a notification: a request whose id cannot be used (object, array,
+		// boolean) is answered too, with id null
+		answered := 0
+		for _, e := range c.Expect {
+			if e != "notif" {
+				answered++
+			}
+		}
+		// (a notification that cannot be dispatched is answered with an id-null error as well, so there may be more)
+		if c.Batch && len(elems) < answered {
+			return fmt.Sprintf("the batch holds %d request(s) that are not notifications (%v) but the reply holds only %d response object(s)", answered, c.Expect, len(elems))
+		}
+	}
+	// an alias is followed for one hop only: "A2" names the alias "Alias.Const" (itself an alias, not a method) and
+	// "Alias.Missing" names a method that does not exist; neither may run anything
+	if !c.Batch && len(elems) == 1 {
+		var rq struct {
+			Method string `json:"method"`
+		}
+		if json.Unmarshal(bytes.TrimSpace(body), &rq) == nil && (rq.Method == "A2" || rq.Method == "Alias.Missing") {
+			_, isErr, code, _ := checkObj(elems[0])
+			if len(c.Invs) > 0 || !isErr {
+				return fmt.Sprintf("method %q is an alias whose target is not a registered method: it must be refused and run nothing (ran %d, error=%v code=%v)", rq.Method, len(c.Invs), isErr, code)
+			}
+		}
 	}
 	if c.Kind == "structured" && c.Runs >= 0 && len(c.Invs) != c.Runs {
 		return fmt.Sprintf("%d handler executions, but by arity/type/method/id of the generated requests exactly %d must run", len(c.Invs), c.Runs)
